@@ -76,14 +76,6 @@ theorem poly0_rounding (M : RModel K) (hu : M.u ≤ (2 : K) ^ (-53 : ℤ)) (p : 
   rw [poly0_ct_e_sum, poly0_ct_A_sum] at h
   exact_mod_cast h
 
-/-- sharp form with the measured depth κ = 0 of the generated scheme; no hypothesis on `u` -/
-theorem poly0_rounding_sharp (M : RModel K) (p : Poly0 K) (x : K) :
-    |p.evalRounded M x - (p._0)|
-      ≤ ((1 + M.u) ^ 0 - 1) * (|p._0|) := by
-  have h := (p.ctRun M x).bound rfl
-  rw [poly0_ct_e_sum, poly0_ct_A_sum] at h
-  exact h
-
 /-- C01, exactness clause, degree 0: if every partial term is a fixed point of `rnd` -/
 theorem poly0_exact (M : RModel K) (p : Poly0 K) (x : K) (h : (p.repRun M x).ok) :
     p.evalRounded M x = p._0 := by
@@ -98,14 +90,6 @@ theorem poly1_rounding (M : RModel K) (hu : M.u ≤ (2 : K) ^ (-53 : ℤ)) (p : 
   have h := ct_c01 M hu (p.ctRun M x) rfl 1 (by norm_num) (Nat.le_of_ble_eq_true rfl)
   rw [poly1_ct_e_sum, poly1_ct_A_sum] at h
   exact_mod_cast h
-
-/-- sharp form with the measured depth κ = 1 of the generated scheme; no hypothesis on `u` -/
-theorem poly1_rounding_sharp (M : RModel K) (p : Poly1 K) (x : K) :
-    |p.evalRounded M x - (p._0.a0 + p._0.a1 * x)|
-      ≤ ((1 + M.u) ^ 1 - 1) * (|p._0.a0| + |p._0.a1| * |x|) := by
-  have h := (p.ctRun M x).bound rfl
-  rw [poly1_ct_e_sum, poly1_ct_A_sum] at h
-  exact h
 
 /-- C01, exactness clause, degree 1: if every partial term is a fixed point of `rnd` -/
 theorem poly1_exact (M : RModel K) (p : Poly1 K) (x : K) (h : (p.repRun M x).ok) :
@@ -122,14 +106,6 @@ theorem poly2_rounding (M : RModel K) (hu : M.u ≤ (2 : K) ^ (-53 : ℤ)) (p : 
   rw [poly2_ct_e_sum, poly2_ct_A_sum] at h
   exact_mod_cast h
 
-/-- sharp form with the measured depth κ = 2 of the generated scheme; no hypothesis on `u` -/
-theorem poly2_rounding_sharp (M : RModel K) (p : Poly2 K) (x : K) :
-    |p.evalRounded M x - (p._0.a0 + p._0.a1 * x + p._0.a2 * x ^ 2)|
-      ≤ ((1 + M.u) ^ 2 - 1) * (|p._0.a0| + |p._0.a1| * |x| + |p._0.a2| * |x| ^ 2) := by
-  have h := (p.ctRun M x).bound rfl
-  rw [poly2_ct_e_sum, poly2_ct_A_sum] at h
-  exact h
-
 /-- C01, exactness clause, degree 2: if every partial term is a fixed point of `rnd` -/
 theorem poly2_exact (M : RModel K) (p : Poly2 K) (x : K) (h : (p.repRun M x).ok) :
     p.evalRounded M x = p._0.a0 + p._0.a1 * x + p._0.a2 * x ^ 2 := by
@@ -144,14 +120,6 @@ theorem poly3_rounding (M : RModel K) (hu : M.u ≤ (2 : K) ^ (-53 : ℤ)) (p : 
   have h := ct_c01 M hu (p.ctRun M x) rfl 3 (by norm_num) (Nat.le_of_ble_eq_true rfl)
   rw [poly3_ct_e_sum, poly3_ct_A_sum] at h
   exact_mod_cast h
-
-/-- sharp form with the measured depth κ = 3 of the generated scheme; no hypothesis on `u` -/
-theorem poly3_rounding_sharp (M : RModel K) (p : Poly3 K) (x : K) :
-    |p.evalRounded M x - (p._0.a0 + p._0.a1 * x + p._0.a2 * x ^ 2 + p._0.a3 * x ^ 3)|
-      ≤ ((1 + M.u) ^ 3 - 1) * (|p._0.a0| + |p._0.a1| * |x| + |p._0.a2| * |x| ^ 2 + |p._0.a3| * |x| ^ 3) := by
-  have h := (p.ctRun M x).bound rfl
-  rw [poly3_ct_e_sum, poly3_ct_A_sum] at h
-  exact h
 
 /-- C01, exactness clause, degree 3: if every partial term is a fixed point of `rnd` -/
 theorem poly3_exact (M : RModel K) (p : Poly3 K) (x : K) (h : (p.repRun M x).ok) :
@@ -168,14 +136,6 @@ theorem poly4_rounding (M : RModel K) (hu : M.u ≤ (2 : K) ^ (-53 : ℤ)) (p : 
   rw [poly4_ct_e_sum, poly4_ct_A_sum] at h
   exact_mod_cast h
 
-/-- sharp form with the measured depth κ = 4 of the generated scheme; no hypothesis on `u` -/
-theorem poly4_rounding_sharp (M : RModel K) (p : Poly4 K) (x : K) :
-    |p.evalRounded M x - (p._0.a0 + p._0.a1 * x + p._0.a2 * x ^ 2 + p._0.a3 * x ^ 3 + p._0.a4 * x ^ 4)|
-      ≤ ((1 + M.u) ^ 4 - 1) * (|p._0.a0| + |p._0.a1| * |x| + |p._0.a2| * |x| ^ 2 + |p._0.a3| * |x| ^ 3 + |p._0.a4| * |x| ^ 4) := by
-  have h := (p.ctRun M x).bound rfl
-  rw [poly4_ct_e_sum, poly4_ct_A_sum] at h
-  exact h
-
 /-- C01, exactness clause, degree 4: if every partial term is a fixed point of `rnd` -/
 theorem poly4_exact (M : RModel K) (p : Poly4 K) (x : K) (h : (p.repRun M x).ok) :
     p.evalRounded M x = p._0.a0 + p._0.a1 * x + p._0.a2 * x ^ 2 + p._0.a3 * x ^ 3 + p._0.a4 * x ^ 4 := by
@@ -190,14 +150,6 @@ theorem poly5_rounding (M : RModel K) (hu : M.u ≤ (2 : K) ^ (-53 : ℤ)) (p : 
   have h := ct_c01 M hu (p.ctRun M x) rfl 5 (by norm_num) (Nat.le_of_ble_eq_true rfl)
   rw [poly5_ct_e_sum, poly5_ct_A_sum] at h
   exact_mod_cast h
-
-/-- sharp form with the measured depth κ = 5 of the generated scheme; no hypothesis on `u` -/
-theorem poly5_rounding_sharp (M : RModel K) (p : Poly5 K) (x : K) :
-    |p.evalRounded M x - (p._0.a0 + p._0.a1 * x + p._0.a2 * x ^ 2 + p._0.a3 * x ^ 3 + p._0.a4 * x ^ 4 + p._0.a5 * x ^ 5)|
-      ≤ ((1 + M.u) ^ 5 - 1) * (|p._0.a0| + |p._0.a1| * |x| + |p._0.a2| * |x| ^ 2 + |p._0.a3| * |x| ^ 3 + |p._0.a4| * |x| ^ 4 + |p._0.a5| * |x| ^ 5) := by
-  have h := (p.ctRun M x).bound rfl
-  rw [poly5_ct_e_sum, poly5_ct_A_sum] at h
-  exact h
 
 /-- C01, exactness clause, degree 5: if every partial term is a fixed point of `rnd` -/
 theorem poly5_exact (M : RModel K) (p : Poly5 K) (x : K) (h : (p.repRun M x).ok) :
@@ -214,14 +166,6 @@ theorem poly6_rounding (M : RModel K) (hu : M.u ≤ (2 : K) ^ (-53 : ℤ)) (p : 
   rw [poly6_ct_e_sum, poly6_ct_A_sum] at h
   exact_mod_cast h
 
-/-- sharp form with the measured depth κ = 6 of the generated scheme; no hypothesis on `u` -/
-theorem poly6_rounding_sharp (M : RModel K) (p : Poly6 K) (x : K) :
-    |p.evalRounded M x - (p._0.a0 + p._0.a1 * x + p._0.a2 * x ^ 2 + p._0.a3 * x ^ 3 + p._0.a4 * x ^ 4 + p._0.a5 * x ^ 5 + p._0.a6 * x ^ 6)|
-      ≤ ((1 + M.u) ^ 6 - 1) * (|p._0.a0| + |p._0.a1| * |x| + |p._0.a2| * |x| ^ 2 + |p._0.a3| * |x| ^ 3 + |p._0.a4| * |x| ^ 4 + |p._0.a5| * |x| ^ 5 + |p._0.a6| * |x| ^ 6) := by
-  have h := (p.ctRun M x).bound rfl
-  rw [poly6_ct_e_sum, poly6_ct_A_sum] at h
-  exact h
-
 /-- C01, exactness clause, degree 6: if every partial term is a fixed point of `rnd` -/
 theorem poly6_exact (M : RModel K) (p : Poly6 K) (x : K) (h : (p.repRun M x).ok) :
     p.evalRounded M x = p._0.a0 + p._0.a1 * x + p._0.a2 * x ^ 2 + p._0.a3 * x ^ 3 + p._0.a4 * x ^ 4 + p._0.a5 * x ^ 5 + p._0.a6 * x ^ 6 := by
@@ -236,14 +180,6 @@ theorem poly7_rounding (M : RModel K) (hu : M.u ≤ (2 : K) ^ (-53 : ℤ)) (p : 
   have h := ct_c01 M hu (p.ctRun M x) rfl 7 (by norm_num) (Nat.le_of_ble_eq_true rfl)
   rw [poly7_ct_e_sum, poly7_ct_A_sum] at h
   exact_mod_cast h
-
-/-- sharp form with the measured depth κ = 7 of the generated scheme; no hypothesis on `u` -/
-theorem poly7_rounding_sharp (M : RModel K) (p : Poly7 K) (x : K) :
-    |p.evalRounded M x - (p._0.a0 + p._0.a1 * x + p._0.a2 * x ^ 2 + p._0.a3 * x ^ 3 + p._0.a4 * x ^ 4 + p._0.a5 * x ^ 5 + p._0.a6 * x ^ 6 + p._0.a7 * x ^ 7)|
-      ≤ ((1 + M.u) ^ 7 - 1) * (|p._0.a0| + |p._0.a1| * |x| + |p._0.a2| * |x| ^ 2 + |p._0.a3| * |x| ^ 3 + |p._0.a4| * |x| ^ 4 + |p._0.a5| * |x| ^ 5 + |p._0.a6| * |x| ^ 6 + |p._0.a7| * |x| ^ 7) := by
-  have h := (p.ctRun M x).bound rfl
-  rw [poly7_ct_e_sum, poly7_ct_A_sum] at h
-  exact h
 
 /-- C01, exactness clause, degree 7: if every partial term is a fixed point of `rnd` -/
 theorem poly7_exact (M : RModel K) (p : Poly7 K) (x : K) (h : (p.repRun M x).ok) :
@@ -260,29 +196,10 @@ theorem poly8_rounding (M : RModel K) (hu : M.u ≤ (2 : K) ^ (-53 : ℤ)) (p : 
   rw [poly8_ct_e_sum, poly8_ct_A_sum] at h
   exact_mod_cast h
 
-/-- sharp form with the measured depth κ = 8 of the generated scheme; no hypothesis on `u` -/
-theorem poly8_rounding_sharp (M : RModel K) (p : Poly8 K) (x : K) :
-    |p.evalRounded M x - (p._0.a0 + p._0.a1 * x + p._0.a2 * x ^ 2 + p._0.a3 * x ^ 3 + p._0.a4 * x ^ 4 + p._0.a5 * x ^ 5 + p._0.a6 * x ^ 6 + p._0.a7 * x ^ 7 + p._0.a8 * x ^ 8)|
-      ≤ ((1 + M.u) ^ 8 - 1) * (|p._0.a0| + |p._0.a1| * |x| + |p._0.a2| * |x| ^ 2 + |p._0.a3| * |x| ^ 3 + |p._0.a4| * |x| ^ 4 + |p._0.a5| * |x| ^ 5 + |p._0.a6| * |x| ^ 6 + |p._0.a7| * |x| ^ 7 + |p._0.a8| * |x| ^ 8) := by
-  have h := (p.ctRun M x).bound rfl
-  rw [poly8_ct_e_sum, poly8_ct_A_sum] at h
-  exact h
-
 /-- C01, exactness clause, degree 8: if every partial term is a fixed point of `rnd` -/
 theorem poly8_exact (M : RModel K) (p : Poly8 K) (x : K) (h : (p.repRun M x).ok) :
     p.evalRounded M x = p._0.a0 + p._0.a1 * x + p._0.a2 * x ^ 2 + p._0.a3 * x ^ 3 + p._0.a4 * x ^ 4 + p._0.a5 * x ^ 5 + p._0.a6 * x ^ 6 + p._0.a7 * x ^ 7 + p._0.a8 * x ^ 8 := by
   rw [poly8_rep M p x h, poly8_eval]
-
-/-- the exactness hypothesis of the cubic spelled out: the partial terms of the generated scheme
-(`x²`, `c₁x+c₀`, `c₃x+c₂` and the final `fma`) are fixed points of `rnd`.  Scheme-dependent by nature. -/
-theorem poly3_exact_explicit (M : RModel K) (p : Poly3 K) (x : K)
-    (hx2 : M.rnd (x * x) = x * x)
-    (ht0 : M.rnd (p._0.a1 * x + p._0.a0) = p._0.a1 * x + p._0.a0)
-    (ht1 : M.rnd (p._0.a3 * x + p._0.a2) = p._0.a3 * x + p._0.a2)
-    (hr : M.rnd ((p._0.a3 * x + p._0.a2) * (x * x) + (p._0.a1 * x + p._0.a0))
-            = (p._0.a3 * x + p._0.a2) * (x * x) + (p._0.a1 * x + p._0.a0)) :
-    p.evalRounded M x = p._0.a0 + p._0.a1 * x + p._0.a2 * x ^ 2 + p._0.a3 * x ^ 3 :=
-  poly3_exact M p x ⟨⟨trivial, trivial, trivial, ht1⟩, ⟨trivial, trivial, hx2⟩, ⟨trivial, trivial, trivial, ht0⟩, hr⟩
 
 /-! ### the dynamic-degree polynomial `PolyN` (Horner with `fma`, any number n+1 of coefficients) -/
 
@@ -405,25 +322,12 @@ noncomputable local instance : Transc ℚ := ⟨fun x => x, fun x => x⟩
 noncomputable abbrev M53 : RModel ℚ := RModel.m53
 
 example : M53.u ≤ (2 : ℚ) ^ (-53 : ℤ) := le_refl _
-/-- the bound is a statement about a run that really rounds: here the rounded value differs from the exact one -/
-example : (⟨⟨1, 1⟩⟩ : Poly1 ℚ).evalRounded M53 1 ≠ 1 + 1 * 1 := by
-  show ((1 : ℚ) * 1 + 1) * (1 + 2 ^ (-53 : ℤ)) ≠ 1 + 1 * 1
-  norm_num
 example : |(⟨⟨1, -2, 3⟩⟩ : Poly2 ℚ).evalRounded M53 2 - (1 + -2 * 2 + 3 * 2 ^ 2)|
     ≤ 4 * (2 + 2) * M53.u * (|1| + |-2| * |2| + |3| * |2| ^ 2) :=
   poly2_rounding M53 (le_refl _) ⟨⟨1, -2, 3⟩⟩ 2
 example : ((3 : ℕ) : ℚ) * M53.u ≤ 1 / 2 := by
   show ((3 : ℕ) : ℚ) * 2 ^ (-53 : ℤ) ≤ 1 / 2
   norm_num
-
-/-- exactness hypothesis, non-trivially: in `RModel.intFix` (integers representable, everything else
-inflated by `1 + 2⁻⁵³`) an integer polynomial at an integer point has only representable partial terms -/
-example : ((⟨⟨1, -2, 3⟩⟩ : Poly2 ℚ).repRun RModel.intFix 2).ok :=
-  ⟨trivial, ⟨trivial, trivial, RModel.intFix_of_eq_int (t := (2 : ℚ) * 2) 4 (by norm_num)⟩,
-    ⟨trivial, trivial, trivial, RModel.intFix_of_eq_int (t := (-2 : ℚ) * 2 + 1) (-3) (by norm_num)⟩,
-    RModel.intFix_of_eq_int (t := (3 : ℚ) * (2 * 2) + (-2 * 2 + 1)) 9 (by norm_num)⟩
-example : PolyN.partialsFixed RModel.intFix [1, -2, 3] 2 :=
-  ⟨RModel.intFix_of_eq_int 4 (by norm_num), RModel.intFix_of_eq_int 9 (by norm_num), trivial⟩
 end example_
 
 end PP.Props.C01Bound
